@@ -458,6 +458,7 @@ func (g *streamGen) fault(fi int, data []byte, ref *RefResult, kinds []string) *
 	case "EIO":
 		f.Off = off()
 		f.WithData = t.Chance(1, 2)
+		f.Once = t.Chance(1, 4)
 		f.ErrKind = []string{"", "", "", "wrapped-eof", "unexpected-eof", "wrapped-unexpected", "text-eof", "closed-pipe", "no-progress", "path-eof", "timeout"}[t.Draw(11)]
 	case "CORRUPT":
 		f.Off = off()
